@@ -87,7 +87,8 @@ func (t *tracker) do(seq []Call) (first *outcome, ok bool) {
 	for i, c := range seq {
 		t.rolling = append(t.rolling, c)
 		t.r.Eval(1)
-		o, fails := t.w.judgeCall(c, i == 0 || i == len(seq)-1)
+		// behavioural probe after the first (faulted) call; thorough tier: also at the end of the case
+		o, fails := t.w.judgeCall(c, i == 0 || i == len(seq)-1 && t.r.Thorough())
 		if i == 0 {
 			first = o
 		}
@@ -183,7 +184,10 @@ func single(r *core.Run) bool {
 				if f.Kind == "limit" {
 					seq = append(seq, c) // same limit again: same outcome
 				}
-				seq = append(seq, Call{Entry: j.entry, Shape: j.shape}, sentinels[(int(ji)+fi)%len(sentinels)], sentinels[(int(ji)+fi+5)%len(sentinels)])
+				seq = append(seq, Call{Entry: j.entry, Shape: j.shape}, sentinels[(int(ji)+fi)%len(sentinels)])
+				if r.Thorough() {
+					seq = append(seq, sentinels[(int(ji)+fi+5)%len(sentinels)])
+				}
 				before := t.w.m
 				o, pass := t.do(seq)
 				r.Outcome(f.Kind + "|" + o.Err + "|" + fmt.Sprint(o.Fired))
